@@ -228,7 +228,8 @@ Lemma lblake2b_correct msg digln key :
   1 <= digln <= 64 -> (length key <= 64)%nat -> Forall is_byte key -> Forall is_byte msg ->
   lblake2b msg digln key = LOk (blake2b_rfc digln key msg).
 Proof.
-  intros Hn Hk Hbk Hbm. unfold lblake2b. rewrite to_int32_small by lia.
+  intros Hn Hk Hbk Hbm. unfold lblake2b.
+  replace (if DIGLN_IS_C_INT then to_int32 digln else digln) with digln by (destruct DIGLN_IS_C_INT; [rewrite to_int32_small by lia|]; reflexivity).
   rewrite maxkey_eq, mindig_eq, maxdig_eq.
   destruct (Z.ltb_spec 64 (Z.of_nat (length key))); [lia|].
   destruct (Z.ltb_spec digln 1); [lia|]. destruct (Z.ltb_spec 64 digln); [lia|]. cbn [orb].
@@ -240,7 +241,8 @@ Lemma lblake2b_rejects msg digln key :
   (64 < length key)%nat \/ digln < 1 \/ 64 < digln ->
   lblake2b msg digln key = LErrKeySize \/ lblake2b msg digln key = LErrDigestSize.
 Proof.
-  intros Hr Hbad. unfold lblake2b. rewrite to_int32_small by lia.
+  intros Hr Hbad. unfold lblake2b.
+  replace (if DIGLN_IS_C_INT then to_int32 digln else digln) with digln by (destruct DIGLN_IS_C_INT; [rewrite to_int32_small by lia|]; reflexivity).
   rewrite maxkey_eq, mindig_eq, maxdig_eq.
   destruct (Z.ltb_spec 64 (Z.of_nat (length key))); [left; reflexivity|].
   destruct (Z.ltb_spec digln 1); [right; reflexivity|]. destruct (Z.ltb_spec 64 digln); [right; reflexivity|]. lia.
@@ -305,3 +307,75 @@ Lemma streaming_from_init nn key chunks :
 Proof.
   intros Hk Hbk Hc. eapply update_chunks; [apply rel_init; assumption|exact Hc].
 Qed.
+
+(* ---------- the Lua entry point: the full rejection statement and why it fails today ---------- *)
+
+(* documented: "digln: between 1 and 64", "key length between 1 and 64" — every other argument is an error *)
+Definition lblake2b_rejects_full : Prop := forall msg digln key,
+  (64 < length key)%nat \/ digln < 1 \/ 64 < digln ->
+  lblake2b msg digln key = LErrKeySize \/ lblake2b msg digln key = LErrDigestSize.
+
+(* `int digln = luaL_optinteger(L, 2, 64)`: 2^32 + 5 is truncated to 5 before the range test *)
+Lemma lblake2b_rejects_refuted : ~ lblake2b_rejects_full.
+Proof.
+  intros H. specialize (H [120] 4294967301 [] ltac:(right; right; reflexivity)).
+  vm_compute in H. destruct H as [H|H]; discriminate H.
+Qed.
+
+Lemma lblake2b_default_ok msg : Forall is_byte msg ->
+  lblake2b_default msg = LOk (blake2b_rfc 64 [] msg).
+Proof.
+  intros Hm. unfold lblake2b_default. change DEFAULT_DIG_C with 64.
+  apply lblake2b_correct; [lia|cbn [length]; lia|constructor|exact Hm].
+Qed.
+
+(* ---------- the 128-bit counter: hashing continued from block index i ---------- *)
+
+Lemma blake2b_rfc_from_0 nn key msg : blake2b_rfc_from 0 nn key msg = blake2b_rfc nn key msg.
+Proof. reflexivity. Qed.
+
+Lemma Forall_concat_bytes chunks : Forall (Forall is_byte) chunks -> Forall is_byte (concat chunks).
+Proof. induction 1 as [|x l Hx _ IH]; cbn [concat]; [constructor|]. apply Forall_app. split; assumption. Qed.
+
+Lemma blake2b_stream_correct nn key i chunks :
+  1 <= nn <= 64 -> (length key <= 64)%nat -> Forall is_byte key -> Forall (Forall is_byte) chunks -> 0 <= i ->
+  blake2b_stream nn key ((i * 128) mod W64) ((i * 128 / W64) mod W64) chunks
+  = Some (blake2b_rfc_from i nn key (concat chunks)).
+Proof.
+  intros Hn Hk Hbk Hbc Hi. unfold blake2b_stream.
+  pose proof (rel_init nn key Hbk Hk) as [r_hash0 r_hlen0 r_tpos0 r_t2 r_t3 r_input0 r_idx0 r_len0 r_bytes0 r_oob0].
+  set (c0 := blake2b_init nn key) in *.
+  set (h0 := rfc_h0 nn (Z.of_nat (length key))) in *.
+  set (c1 := mkctx (c_hash c0) ((i * 128) mod W64) ((i * 128 / W64) mod W64) (c_input c0) (c_idx c0) (c_hsize c0) (c_oob c0)).
+  assert (HR0 : Rel c1 h0 (i * 128) (key_block key)).
+  { constructor; cbn [c1 c_hash c_t0 c_t1 c_input c_idx c_oob]; try assumption; try reflexivity. lia. }
+  set (msg := concat chunks).
+  assert (Hbm : Forall is_byte msg) by (apply Forall_concat_bytes; exact Hbc).
+  rewrite (update_chunks chunks c1 h0 (i * 128) (key_block key) HR0 Hbc). fold msg.
+  pose proof (rel_update _ _ _ _ msg HR0 Hbm) as HR1.
+  assert (Hs : c_hsize (blake2b_update c1 msg) = nn).
+  { rewrite hsize_update. cbn [c1 c_hsize]. subst c0. apply hsize_init. }
+  assert (Hfold : fold_left afeed msg (h0, i * 128, key_block key) = fold_left afeed (rfc_data key msg) (h0, i * 128, [])).
+  { unfold rfc_data. fold (key_block key). rewrite fold_left_app. f_equal.
+    rewrite afeed_many_noflush; [reflexivity|].
+    unfold key_block, pad_to. destruct (_ =? 0); cbn [length]; [lia|]. rewrite app_length, repeat_length. lia. }
+  rewrite Hfold in HR1.
+  destruct (fold_left afeed (rfc_data key msg) (h0, i * 128, [])) as [[h t] buf] eqn:HA. cbn [RelA] in HR1.
+  pose proof (rel_final _ h t buf nn HR1 Hs Hn) as HF.
+  destruct (blake2b_final (blake2b_update c1 msg)) as [c' out].
+  destruct HF as [Hoob ->]. rewrite Hoob. f_equal.
+  unfold blake2b_rfc_from. f_equal. f_equal. rewrite <- HA.
+  destruct (rfc_dd_succ key msg Hk) as (k & Hdd & Hrange).
+  rewrite (afinal_rfc_loop k (rfc_data key msg) h0 (i * 128) i ltac:(lia) Hrange).
+  unfold rfc_blocks. rewrite Hdd. fold h0. f_equal.
+  unfold rfc_data, RFC_BB, pad_to.
+  destruct (Z.eqb_spec (Z.of_nat (length key)) 0); rewrite ?app_length, ?repeat_length; cbn [app length]; lia.
+Qed.
+
+(* an instance whose counter crosses 2^64 while hashing: i = 2^57 - 1, i.e. t0 = 2^64 - 128, t1 = 0, two blocks fed *)
+Example counter_carry_instance :
+  let i := 2 ^ 57 - 1 in
+  (i * 128) mod W64 = 2 ^ 64 - 128 /\ (i * 128 / W64) mod W64 = 0 /\
+  blake2b_stream 32 [] (2 ^ 64 - 128) 0 [repeat 7 100; repeat 9 101] = Some (blake2b_rfc_from i 32 [] (repeat 7 100 ++ repeat 9 101)) /\
+  blake2b_rfc_from i 32 [] (repeat 7 100 ++ repeat 9 101) <> blake2b_rfc 32 [] (repeat 7 100 ++ repeat 9 101).
+Proof. vm_compute. repeat split; try reflexivity. discriminate. Qed.
